@@ -185,6 +185,41 @@ func runC11(a *args) error {
 			st.count("handshake:" + kind + ":" + obs)
 			_ = released
 		}
+		// a caller that gives up (its context is cancelled) at the moment its entry has been applied: whether it still
+		// takes its outcome or leaves with the context's error, the next callers get their own outcomes
+		for k := 0; k < 12; k++ {
+			idA := uuidFrom(r)
+			ctxA, cancelA := context.WithCancel(context.Background())
+			storage.VerifPauseHook = func(name string) {
+				if name != "after-propose" {
+					return
+				}
+				deadline := time.Now().Add(300 * time.Millisecond)
+				for time.Now().Before(deadline) {
+					if _, e := idx.Get(idA); e == nil {
+						break
+					}
+					time.Sleep(time.Millisecond)
+				}
+				time.Sleep(2 * time.Millisecond) // the apply loop has delivered the outcome by now
+				cancelA()
+			}
+			errA := ds.Insert(ctxA, idA, []float32{float32(k), 9}, nil)
+			storage.VerifPauseHook = nil
+			cancelA()
+			ctx, cancel := context.WithTimeout(context.Background(), 400*time.Millisecond)
+			errB := ds.Remove(ctx, uuidFrom(r))
+			errC := ds.Insert(ctx, idA, []float32{1, 1}, nil)
+			cancel()
+			st.count(fmt.Sprintf("cancelled-after-apply:A-returned-error=%v", errA != nil))
+			in := map[string]interface{}{"round": k, "errA": fmt.Sprint(errA)}
+			if errB == nil || errClass(errB) != "notfound" {
+				st.ImplFailures = append(st.ImplFailures, implFailure{Case: k, What: fmt.Sprintf("after a caller gave up at the moment its insert was applied (it returned %v), the next caller's Remove of an id that is not stored returned %v", errA, errB), Key: "outcome-of-another-caller:remove-absent", Input: in})
+			}
+			if errC == nil || errClass(errC) != "exists" {
+				st.ImplFailures = append(st.ImplFailures, implFailure{Case: k, What: fmt.Sprintf("after a caller gave up at the moment its insert was applied (it returned %v), a second Insert of the same id returned %v", errA, errC), Key: "outcome-of-another-caller:insert-dup", Input: in})
+			}
+		}
 		c.close()
 	}
 	// ---- (2) write path on a 3-node cluster
